@@ -74,6 +74,11 @@ def make_diff(rng, enc, kind, damaged, long_first=0):
         lines.insert(0, 'Index: ' + 'p/' * long_first)
 
     text = nl.join(lines) + nl
+
+    if not damaged and rng.chance(0.15) and len(lines) > 1:
+        # no final line ending (the object model holds the diff as given)
+        text = text[:-len(nl)]
+
     return text.encode(enc or 'utf-8')
 
 
